@@ -1,5 +1,5 @@
 (* C16 - a failing write call changes nothing (store-model part): what a failing call can have written.
-   bp, ba: the error-path patches check-link-before-allocating / attrinfo-check-before-dense-write present or not;
+   bp, ba: the error-path patches e5d916a (link pre-check) / 8199862 (attribute-info check) present or not;
    may_leave_bytes bp ba o = the calls whose failure can leave bytes behind in that configuration. *)
 From HV Require Import Base.Prelude Model.Store Proofs.Store Proofs.StoreOps Proofs.StoreInv Proofs.StoreProps.
 Local Open Scope N_scope.
@@ -31,7 +31,7 @@ Theorem C16_failed_call_bookkeeping : forall bp ba sb h o,
 Proof. exact C16_failed_call_bookkeeping_l. Qed.
 Print Assumptions C16_failed_call_bookkeeping.
 
-(* the exception (without notes/fixes/check-link-before-allocating): a hard link failing in linkToParent leaves
+(* the exception (without fix e5d916a, link pre-check): a hard link failing in linkToParent leaves
    its reference-count message in the target header *)
 Theorem C16_hardlink_residue :
   let s := reach false false 2 hist_hl in let o := OpHardLink 0 1 true 1 in
